@@ -525,8 +525,12 @@ pub mod inner {
         ///
         /// The length of each slice equals [`self.width()`](Self::width).
         pub fn rows(&self) -> impl Iterator<Item = &[T]> {
+            // Only the first `height` chunks are rows of `self`: the backing
+            // data may extend past the last row. A zero stride is only
+            // possible if the width is zero.
             self.data
-                .chunks(self.stride as usize)
+                .chunks(self.stride.max(1) as usize)
+                .take(self.dims.1 as usize)
                 .map(|row| &row[..self.dims.0 as usize])
         }
 
@@ -555,7 +559,8 @@ pub mod inner {
         /// The length of each slice equals [`self.width()`](Self::width).
         pub fn rows_mut(&mut self) -> impl Iterator<Item = &mut [T]> {
             self.data
-                .chunks_mut(self.stride as usize)
+                .chunks_mut(self.stride.max(1) as usize)
+                .take(self.dims.1 as usize)
                 .map(|row| &mut row[..self.dims.0 as usize])
         }
 
